@@ -1003,7 +1003,7 @@ def freshMidi : List MidiCh := List.replicate 16 {}
 
 /-- resetMIDI (with resetMIDIDefaults for MODE_MIDI and no MT-32 defaults) -/
 def resetMIDI : M Unit :=
-  modify fun s => { s with master := 127, devId := 0, mode := 2, arpCounter := 0, midi := freshMidi }
+  modify fun s => { s with master := 127, mode := 2, arpCounter := 0, midi := freshMidi }
 
 /-- the part of applySetup / partialReset that rebuilds chips and chip channels -/
 def rebuildChips : M Unit := do
